@@ -24,19 +24,35 @@ import (
 )
 
 type hstate struct {
-	database *db.DB
-	chain    *blockchain.Chain
-	applied  []*blockchain.Block // shadow stack of successfully applied blocks (genesis first)
-	lastDel  *blockchain.Block   // most recently deleted block and its events (generator: re-apply corner)
-	lastDelE []*blockchain.Event
-	events   map[string][]*blockchain.Event
+	database   *db.DB
+	chain      *blockchain.Chain
+	flushEvery bool
+	applied    []*blockchain.Block // shadow stack of successfully applied blocks (genesis first)
+	lastDel    *blockchain.Block   // most recently deleted block and its events (generator: re-apply corner)
+	lastDelE   []*blockchain.Event
+	events     map[string][]*blockchain.Event
 }
 
 func (h *hstate) tip() *c05x.TipObs {
 	if b := h.chain.LastBlock(); b != nil {
-		return &c05x.TipObs{ID: c05x.Hex(b.Header.ID), Height: b.Header.Height}
+		o := &c05x.TipObs{ID: c05x.Hex(b.Header.ID), Height: b.Header.Height}
+		func() {
+			defer func() { _ = recover() }()
+			ok := false
+			if stored, err := blockchain.NewDataAccess(h.database, 1, 0).GetBlock(b.Header.ID); err == nil {
+				ok = bytes.Equal(stored.Encode(), b.Encode())
+			}
+			o.BodyOK = &ok
+		}()
+		return o
 	}
 	return nil
+}
+
+// flushDiff forces a memtable flush and answers the keys that read differently afterwards.
+func (h *hstate) flushDiff(before []c05x.KV) []string {
+	c05x.Must(h.database.VerifC05Flush())
+	return c05x.DiffDumps(before, c05x.Dump(h.database))
 }
 
 // tipBlock is the block generation continues from: the cached tip, or the shadow tip when the cache is empty.
@@ -135,6 +151,9 @@ func (h *hstate) del(s *c05x.DeleteStep) {
 	}
 	s.DiffFound, s.Err, s.Panic, s.TempIDs, s.TempOK = false, nil, "", nil, nil
 	lastEnc := last.Encode()
+	if top := h.applied[len(h.applied)-1]; bytes.Equal(top.Header.ID, last.Header.ID) {
+		lastEnc = top.Encode() // the block as it was applied (the cached copy may have lost its body)
+	}
 	site := "Get"
 	func() {
 		defer func() {
@@ -193,13 +212,19 @@ func (h *hstate) del(s *c05x.DeleteStep) {
 			s.TempOK = &ok
 		}
 	}()
+	if h.flushEvery && s.Err == nil && s.Panic == "" {
+		s.FlushDiff = h.flushDiff(s.Post)
+	}
 }
 
 func runHist(r *hx.Rng, in *c05x.HistIn) (rec c05x.HistRec) {
 	gen := in == nil
 	if gen {
 		rec.HistHead = c05x.HistHead{K: "hist", Keep: c05x.Pick(r, -1, 0, 1, 2, 300), MaxCache: c05x.Pick(r, 2, 3, 5, 515), GenesisHeight: uint32(r.Intn(4)),
-			GenesisDiff: r.Bool(), Prestate: []c05x.KV{}}
+			GenesisDiff: r.Bool(), Prestate: []c05x.KV{}, FlushEvery: r.Bool(), Drain: r.Intn(4) == 0}
+		if rec.Drain {
+			rec.MaxCache = c05x.Pick(r, 1, 2, 3)
+		}
 		for i, n := 0, r.Intn(5); i < n; i++ {
 			rec.Prestate = append(rec.Prestate, c05x.KV{c05x.Hex(bytes.Join(c05x.StatePrefix, c05x.SmallKey(r))), c05x.Hex(r.Bytes(r.Intn(4)))})
 		}
@@ -225,11 +250,25 @@ func runHist(r *hx.Rng, in *c05x.HistIn) (rec c05x.HistRec) {
 		batch.Set(c05x.DiffKey(g), diffdb.New(database, c05x.StatePrefix).Commit(batch).Encode())
 	}
 	c05x.Must(chain.AddBlock(batch, genesis, nil, g, false))
-	h := &hstate{database: database, chain: chain, applied: []*blockchain.Block{genesis}, events: map[string][]*blockchain.Event{}}
+	h := &hstate{database: database, chain: chain, applied: []*blockchain.Block{genesis}, events: map[string][]*blockchain.Event{},
+		flushEvery: rec.FlushEvery}
 	if gen {
-		for i, n := 0, 4+r.Intn(9); i < n; i++ {
+		// drain: blocks with transactions (and assets), then more consecutive deletes than the block cache holds
+		drainApply, drainDelete := 0, 0
+		if rec.Drain {
+			drainApply = rec.MaxCache + 2 + r.Intn(3)
+			drainDelete = drainApply
+		}
+		for i, n := 0, 4+r.Intn(9)+2*drainApply; i < n; i++ {
 			tip := h.tipBlock()
-			if r.Intn(100) >= 55 && (tip.Header.Height > g || r.Intn(4) == 0) {
+			wantDelete := r.Intn(100) >= 55 && (tip.Header.Height > g || r.Intn(4) == 0)
+			if drainApply > 0 {
+				wantDelete = false
+			} else if drainDelete > 0 && tip.Header.Height > g {
+				wantDelete = true
+				drainDelete--
+			}
+			if wantDelete {
 				s := &c05x.DeleteStep{SaveTemp: r.Bool(), Enforce: r.Intn(100) < 88}
 				h.del(s)
 				rec.Steps = append(rec.Steps, s)
@@ -243,21 +282,21 @@ func runHist(r *hx.Rng, in *c05x.HistIn) (rec c05x.HistRec) {
 				block, events, s.Reapply, s.RemoveTemp = d, h.lastDelE, true, r.Intn(4) != 0
 			} else {
 				txs := []*blockchain.Transaction{}
-				for j, m := 0, r.Intn(4); j < m; j++ {
+				for j, m := 0, r.Intn(4); j < m || (drainApply > 0 && j == 0); j++ {
 					txs = append(txs, c05x.GenTx(r))
 				}
 				var stored []*blockchain.Transaction
 				for _, b := range h.applied {
 					stored = append(stored, b.Transactions...)
 				}
-				if len(stored) > 0 && r.Intn(10) == 0 {
+				if len(stored) > 0 && r.Intn(10) == 0 && !rec.Drain {
 					txs, s.DupTx = append(txs, stored[r.Intn(len(stored))]), true
 				}
 				block, events = c05x.GenBlock(r, height, tip.Header.ID, txs, false), c05x.GenEvents(r, height)
 			}
 			s.Staged = c05x.GenStaged(r, database)
 			if cur := h.fh(); cur != nil {
-				if s.Fh = *cur; height > *cur && r.Intn(4) == 0 {
+				if s.Fh = *cur; height > *cur && r.Intn(4) == 0 && drainApply == 0 && drainDelete == 0 {
 					// finality usually lags behind the tip; sometimes the new block finalizes itself
 					if hi := height - 1; hi > *cur && r.Intn(4) != 0 {
 						s.Fh = *cur + 1 + uint32(r.Intn(int(hi-*cur)))
@@ -268,6 +307,9 @@ func runHist(r *hx.Rng, in *c05x.HistIn) (rec c05x.HistRec) {
 			}
 			h.apply(s, block, events)
 			rec.Steps = append(rec.Steps, s)
+			if drainApply > 0 {
+				drainApply--
+			}
 		}
 	} else {
 		for _, raw := range in.Steps {
@@ -296,6 +338,14 @@ func runHist(r *hx.Rng, in *c05x.HistIn) (rec c05x.HistRec) {
 			rec.Steps = append(rec.Steps, s)
 		}
 	}
+	func() {
+		defer func() {
+			if r := recover(); r != nil {
+				rec.FinalFlushDiff = []string{"panic"}
+			}
+		}()
+		rec.FinalFlushDiff = h.flushDiff(c05x.Dump(database))
+	}()
 	// DB view of the tip from a fresh DataAccess (empty cache). GetLastBlock() only consults the cache, so the
 	// exported DB-backed accessor GetLastBlockHeader() is used.
 	func() {
